@@ -37,6 +37,8 @@ pub struct AlphaCfg {
     pub burnt_requests: bool,
     /// swap templates per pool side (coins of that denomination used)
     pub swaps_per_side: usize,
+    /// near-requests: a deposit listing its coins as (right, left), a withdrawal carrying a change output to another address
+    pub odd_shapes: bool,
 }
 
 impl AlphaCfg {
@@ -65,6 +67,7 @@ impl AlphaCfg {
             request_variants: false,
             burnt_requests: false,
             swaps_per_side: 1,
+            odd_shapes: false,
         }
     }
 }
@@ -356,6 +359,12 @@ fn pool_alphabet(n: &Node, cfg: &AlphaCfg) -> Vec<(String, Transaction, bool)> {
                 for (sname, data) in &spellings {
                     out.push((format!("deposit[{}:{}]", pname, sname), tx_t(TxKind::LiqDeposit, ins.clone(), outs.clone(), 0, data.clone()), true));
                 }
+                if cfg.odd_shapes && outs.len() == 2 {
+                    // the two coins in (right, left) order: not a deposit request (the first coin must be the pool's left side)
+                    let ins_r = vec![r.0, l.0];
+                    let outs_r = vec![outs[1].clone(), outs[0].clone()];
+                    out.push((format!("deposit-sides-reversed[{}]", pname), tx_t(TxKind::LiqDeposit, ins_r, outs_r, 0, k.to_bytes().to_vec()), true));
+                }
                 if cfg.burnt_requests {
                     for which in [0usize, 1] {
                         let mut ob = outs.clone();
@@ -399,6 +408,12 @@ fn pool_alphabet(n: &Node, cfg: &AlphaCfg) -> Vec<(String, Transaction, bool)> {
                 // the only valid shape: inputs [liq coin, mel coin], outputs [liq value], fee = mel value
                 let fee = ins.get(1).and_then(|id| m.coins.get(id)).map(|c| c.coin_data.value.0).unwrap_or(0);
                 out.push((format!("withdraw[{}]({})", pname, short(&c.0)), tx_t(TxKind::LiqWithdraw, ins.clone(), vec![out_t(v, k.liq_token_denom())], fee, k.to_bytes().to_vec()), true));
+                if cfg.odd_shapes && wi == 0 {
+                    // a withdrawal-like transaction with a change output to another address: not a request (a request has exactly one output)
+                    let mut change = out_t(fee, Denom::Mel);
+                    change.covhash = addr_true2();
+                    out.push((format!("withdraw-with-change[{}]({})", pname, short(&c.0)), tx_t(TxKind::LiqWithdraw, ins.clone(), vec![out_t(v, k.liq_token_denom()), change], 0, k.to_bytes().to_vec()), true));
+                }
                 if cfg.burnt_requests {
                     let mut o = out_t(v, k.liq_token_denom());
                     o.covhash = Address::coin_destroy();
